@@ -117,13 +117,17 @@ func (m *meta) start() {
 	// start meta process
 	m.creation = time.Now().Unix()
 
+	lib.VerifPoint("meta.start.sleep", m.id)
 	atomic.StoreInt32(&m.state, int32(gen.MetaStateSleep))
 
 	// handle mailbox
+	lib.VerifPoint("meta.start.spawn", m.id)
 	go m.handle()
 
+	lib.VerifPoint("meta.start.call", m.id)
 	reason := m.behavior.Start()
 	// meta process terminated
+	lib.VerifPoint("meta.start.ret", m.id)
 	old := atomic.SwapInt32(&m.state, int32(gen.MetaStateTerminated))
 	if old != int32(gen.MetaStateTerminated) {
 		m.p.node.aliases.Delete(m.id)
@@ -139,12 +143,16 @@ func (m *meta) handle() {
 	var reason error
 	var result any
 
+	lib.VerifPoint("meta.wake", m.id)
 	if atomic.CompareAndSwapInt32(&m.state, int32(gen.MetaStateSleep), int32(gen.MetaStateRunning)) == false {
 		// running or terminated
 		return
 	}
 
+	lib.VerifPoint("meta.spawn", m.id)
 	go func() {
+		lib.VerifPoint("meta.begin", m.id)
+		defer lib.VerifPoint("meta.end", m.id)
 		var message *gen.MailboxMessage
 
 		if lib.Recover() {
@@ -170,6 +178,7 @@ func (m *meta) handle() {
 			reason = nil
 			result = nil
 
+			lib.VerifPoint("meta.pick", m.id)
 			if gen.MetaState(atomic.LoadInt32(&m.state)) != gen.MetaStateRunning {
 				// terminated
 				break
@@ -243,6 +252,7 @@ func (m *meta) handle() {
 				continue
 			}
 
+			lib.VerifPoint("meta.term", m.id)
 			// terminated
 			old := atomic.SwapInt32(&m.state, int32(gen.MetaStateTerminated))
 			if old != int32(gen.MetaStateTerminated) {
@@ -253,11 +263,13 @@ func (m *meta) handle() {
 			return
 		}
 
+		lib.VerifPoint("meta.sleep", m.id)
 		if atomic.CompareAndSwapInt32(&m.state, int32(gen.MetaStateRunning), int32(gen.MetaStateSleep)) == false {
 			// terminated. seems the main loop is stopped. do nothing.
 			return
 		}
 
+		lib.VerifPoint("meta.recheck", m.id)
 		// check if we got a new message
 		if m.system.Item() == nil {
 			if m.main.Item() == nil {
@@ -266,6 +278,7 @@ func (m *meta) handle() {
 			}
 		}
 
+		lib.VerifPoint("meta.reacquire", m.id)
 		// got some... try to use this goroutine
 		if atomic.CompareAndSwapInt32(&m.state, int32(gen.MetaStateSleep), int32(gen.MetaStateRunning)) == false {
 			// another goroutine is already running
